@@ -26,6 +26,8 @@ SHIM_NOTES = {
     "hex": "binascii.hexlify/unhexlify/bytes.fromhex/bytes.hex/hex()/int(s,16) are the usual mutually inverse hex-digit maps",
     "ord": "ord/chr are the identity on code points",
     "bool": "bool(x) of a symbolic integer is its symbolic truth value x != 0",
+    "format": "str()/format()/f-string/print of symbolic text or of a symbolic integer with a hex spec ('X', '02X', ...) yields the "
+              "same characters as CPython (digit count decided by forking); carried through real str objects as opaque placeholders",
 }
 
 
@@ -82,6 +84,8 @@ def hexdigit_value(c):
     """value of a (possibly symbolic) hex digit code point; forks into the 3 digit classes"""
     if type(c) is not SymInt:
         return _real_int(chr(c), 16)
+    if type(c.tag) is tuple and c.tag[0] == "hexdigit":
+        return c.tag[1]     # c was produced by _nibble_char(n) (+ case mapping): its digit value is n
     if sym_and(c >= 48, c <= 57):
         return c - 48
     if sym_and(c >= 97, c <= 102):
@@ -365,7 +369,38 @@ def _nibble_char(n):
     """ascii code of lowercase hex digit for (possibly symbolic) nibble n (no fork)"""
     if type(n) is not SymInt:
         return ord("0123456789abcdef"[n])
-    return core.ite(n < 10, n + 48, n + 87)
+    c = core.ite(n < 10, n + 48, n + 87)
+    if type(c) is SymInt and n.lo >= 0 and n.hi <= 15:
+        c.tag = ("hexdigit", n)
+    return c
+
+
+def format_symint(v, spec):
+    """format(v, spec) for a symbolic integer and hex specs '[0][width](x|X)': the digit count is
+    decided by forking, the digits stay symbolic (placeholder string, see seq.placeholders_begin).
+    Returns None when placeholders are off or the spec is not modelled."""
+    from . import seq
+    if not seq._PH["on"]:
+        return None
+    import re
+    m = re.fullmatch(r"(0?)(\d*)([xX])", spec)
+    if not m or v.lo < 0:
+        return None
+    zero, width, kind = m.group(1), _real_int(m.group(2) or 0), m.group(3)
+    nd = max(1, (v.lo.bit_length() + 3) // 4)
+    ndmax = max(1, (v.hi.bit_length() + 3) // 4)
+    while nd < ndmax:
+        if v < (1 << (4 * nd)):
+            break
+        nd += 1
+    cps = []
+    for i in _real_range(nd - 1, -1, -1):
+        c = _nibble_char((v >> (4 * i)) & 0xF)
+        if kind == "X":
+            c = seq._ascii_case(c, 97, -32)
+        cps.append(c)
+    pad = [48 if zero else 32] * max(0, width - nd)
+    return seq.ph_encode(pad + cps)
 
 
 def sym_hexlify(b):
